@@ -377,3 +377,279 @@ Section WF.
     intros H ->. destruct H as [->|H]; [reflexivity|]. apply wfl1_lab. apply alts3_wfl1. exact H.
   Qed.
 End WF.
+
+(* ================================================================== *)
+(* C. denotations                                                      *)
+(* ================================================================== *)
+Lemma leq_cat A A' B B' : A =L A' -> B =L B' -> l_cat A B =L l_cat A' B'.
+Proof.
+  intros HA HB w. unfold l_cat. split; intros (u & v & E & Hu & Hv); exists u, v;
+    (split; [exact E|split; [apply HA; exact Hu|apply HB; exact Hv]]).
+Qed.
+
+Lemma leq_star A A' : A =L A' -> l_star A =L l_star A'.
+Proof.
+  intros HA w. split; intro H; induction H as [|u v Hu Hv IH]; try apply star_nil;
+    (apply star_app; [apply HA; exact Hu|exact IH]).
+Qed.
+
+Lemma cat_assoc A B C : l_cat (l_cat A B) C =L l_cat A (l_cat B C).
+Proof.
+  intro w. unfold l_cat. split.
+  - intros (uv & z & E & (u & v & E' & Hu & Hv) & Hz). subst. exists u, (v ++ z).
+    split; [apply app_assoc_reverse|]. split; [exact Hu|]. exists v, z. auto.
+  - intros (u & vz & E & Hu & (v & z & E' & Hv & Hz)). subst. exists (u ++ v), z.
+    split; [apply app_assoc|]. split; [|exact Hz]. exists u, v. auto.
+Qed.
+
+Lemma cat_eps_l A : l_cat l_eps A =L A.
+Proof.
+  intro w. unfold l_cat, l_eps. split.
+  - intros (u & v & E & -> & Hv). subst. exact Hv.
+  - intro H. exists [], w. auto.
+Qed.
+
+Lemma cat_eps_r A : l_cat A l_eps =L A.
+Proof.
+  intro w. unfold l_cat, l_eps. split.
+  - intros (u & v & E & Hu & ->). subst. rewrite app_nil_r. exact Hu.
+  - intro H. exists w, []. rewrite app_nil_r. auto.
+Qed.
+
+Lemma xden_cat_app a b : xden (cat_app a b) =L l_cat (xden a) (xden b).
+Proof.
+  induction b as [|x|b1 IH1 b2 IH2|b1 IH1 b2 IH2|b IH|b IH|b IH]; simpl; try (intro w; reflexivity).
+  eapply lang_eq_trans; [apply leq_cat; [apply IH1|apply lang_eq_refl]|]. apply cat_assoc.
+Qed.
+
+Lemma xden_xcat a b : xden (xcat a b) =L l_cat (xden a) (xden b).
+Proof.
+  unfold xcat. destruct (is_xeps a) eqn:Ea.
+  - destruct a; try discriminate. simpl. apply lang_eq_sym. apply cat_eps_l.
+  - destruct (is_xeps b) eqn:Eb.
+    + destruct b; try discriminate. simpl. apply lang_eq_sym. apply cat_eps_r.
+    + apply xden_cat_app.
+Qed.
+
+Lemma xden_xbrk_wrap r : xden (xbrk_wrap r) = xden r.
+Proof. unfold xbrk_wrap. destruct (isbracket_req (show r)); reflexivity. Qed.
+
+Definition lrel (x : option sx) (r : option rex) : Prop :=
+  match x, r with
+  | None, None => True
+  | Some x, Some r => xden x =L rden r
+  | _, _ => False
+  end.
+
+Lemma brk_wrap_nil s : brk_wrap s = [] -> s = [].
+Proof. unfold brk_wrap. destruct (isbracket_req s); [discriminate|auto]. Qed.
+
+Section Den.
+  Variable ok : nat -> bool.
+  Hypothesis ok_sym : forall a, ok a = true -> sym_ok a = true.
+
+  Lemma xrip_lab_den xl rl q i j :
+    (forall p r, lrel (xl p r) (rl p r)) ->
+    (forall p r y, xl p r = Some y -> wf_lab ok y = true) ->
+    lrel (xrip_lab xl q i j) (rip_lab rl q i j).
+  Proof.
+    intros Hrel Hwf. unfold xrip_lab, rip_lab.
+    pose proof (Hrel i q) as R1. pose proof (Hrel q j) as R3.
+    pose proof (Hrel q q) as R2. pose proof (Hrel i j) as R4.
+    destruct (xl i q) as [r1|] eqn:E1; destruct (rl i q) as [s1|]; simpl in R1; try contradiction; [|exact R4].
+    destruct (xl q j) as [r3|] eqn:E3; destruct (rl q j) as [s3|]; simpl in R3; try contradiction; [|exact R4].
+    pose proof (Hwf _ _ _ E1) as W1. pose proof (Hwf _ _ _ E3) as W3.
+    set (r2' := match xl q q with
+                | Some r2 => if Nat.eqb (length (show r2)) 1 then XStar r2 else XStar (XParen r2)
+                | None => XEps end).
+    set (M := l_cat (rden s1) (l_cat (match rl q q with Some s2 => l_star (rden s2) | None => l_eps end) (rden s3))).
+    assert (D2 : xden r2' =L match rl q q with Some s2 => l_star (rden s2) | None => l_eps end).
+    { unfold r2'. destruct (xl q q) as [r2|]; destruct (rl q q) as [s2|]; simpl in R2; try contradiction.
+      - destruct (Nat.eqb (length (show r2)) 1); simpl; apply leq_star; exact R2.
+      - apply lang_eq_refl. }
+    assert (Hmid : xden (xcat (xcat (xbrk_wrap r1) r2') (xbrk_wrap r3)) =L M).
+    { eapply lang_eq_trans; [apply xden_xcat|].
+      eapply lang_eq_trans; [apply leq_cat; [apply xden_xcat|apply lang_eq_refl]|].
+      eapply lang_eq_trans; [apply cat_assoc|]. rewrite !xden_xbrk_wrap. unfold M.
+      apply leq_cat; [exact R1|]. apply leq_cat; [exact D2|exact R3]. }
+    assert (Hold : rden (match rl q q with
+                         | Some s2 => RCat s1 (RCat (RStar s2) s3)
+                         | None => RCat s1 s3 end) =L M).
+    { unfold M. destruct (rl q q) as [s2|]; simpl; [apply lang_eq_refl|].
+      apply leq_cat; [apply lang_eq_refl|]. apply lang_eq_sym. apply cat_eps_l. }
+    set (mid := xcat (xcat (xbrk_wrap r1) r2') (xbrk_wrap r3)) in *.
+    set (old := match rl q q with Some s2 => RCat s1 (RCat (RStar s2) s3) | None => RCat s1 s3 end) in *.
+    set (n := length (show (xbrk_wrap r1)) + length (show r2') + length (show (xbrk_wrap r3))).
+    destruct (Nat.eqb n 0) eqn:En.
+    - (* the path through q only reads the empty string *)
+      apply Nat.eqb_eq in En.
+      assert (Hm : forall w, M w <-> w = []).
+      { assert (Ls : length (show (xbrk_wrap r1)) = 0 /\ length (show r2') = 0 /\ length (show (xbrk_wrap r3)) = 0)
+          by (unfold n in En; lia).
+        destruct Ls as (L1 & L2 & L3).
+        apply length_zero_iff_nil in L1. apply length_zero_iff_nil in L2. apply length_zero_iff_nil in L3.
+        rewrite show_xbrk_wrap in L1, L3. apply brk_wrap_nil in L1. apply brk_wrap_nil in L3.
+        pose proof (wf_lab_nil ok r1 W1 L1) as X1. pose proof (wf_lab_nil ok r3 W3 L3) as X3. subst r1 r3.
+        assert (X2 : xl q q = None).
+        { unfold r2' in L2. destruct (xl q q) as [r2|]; [|reflexivity].
+          destruct (Nat.eqb (length (show r2)) 1); simpl in L2; [destruct (show r2); discriminate|discriminate]. }
+        intro w. rewrite <- (Hmid w). unfold mid, r2'. rewrite X2. simpl. unfold l_eps. tauto. }
+      destruct (xl i j) as [o|] eqn:E4; destruct (rl i j) as [s4|]; simpl in R4; try contradiction.
+      + pose proof (Hwf _ _ _ E4) as W4.
+        destruct (is_nil (show o)) eqn:Eo.
+        * assert (o = XEps) by (apply (wf_lab_nil ok o W4); destruct (show o); [reflexivity|discriminate]).
+          subst o. intro w. simpl. unfold l_union. rewrite (Hold w), (Hm w), <- (R4 w). simpl. unfold l_eps. tauto.
+        * destruct (Nat.eqb (length (show o)) 1); intro w; simpl; unfold l_union, l_opt;
+            rewrite (Hold w), (Hm w), <- (R4 w); tauto.
+      + intro w. simpl. rewrite (Hold w), (Hm w). unfold l_eps. tauto.
+    - destruct (xl i j) as [r4|] eqn:E4; destruct (rl i j) as [s4|]; simpl in R4; try contradiction.
+      + pose proof (Hwf _ _ _ E4) as W4.
+        destruct (isbracket_req (show r4)).
+        * intro w. simpl. unfold l_union. rewrite (Hold w), (Hmid w), (R4 w). tauto.
+        * destruct (is_nil (show r4)) eqn:E0.
+          -- assert (r4 = XEps) by (apply (wf_lab_nil ok r4 W4); destruct (show r4); [reflexivity|discriminate]).
+             subst r4. destruct (Nat.ltb 1 n); intro w; simpl; unfold l_union, l_opt;
+               rewrite (Hold w), (Hmid w), <- (R4 w); simpl; unfold l_eps; tauto.
+          -- intro w. simpl. unfold l_union. rewrite (Hold w), (Hmid w), (R4 w). tauto.
+      + intro w. simpl. rewrite (Hold w), (Hmid w). tauto.
+  Qed.
+
+  (* ---- labels related pointwise: string = printing of a well-formed tree that denotes what
+     the AST-level label denotes ---- *)
+  Definition lab_rel (sl : nat -> nat -> option str) (rl : nat -> nat -> option rex) : Prop :=
+    exists xl, forall p q, oshow (xl p q) = sl p q /\ lrel (xl p q) (rl p q) /\
+                           (forall y, xl p q = Some y -> wf_lab ok y = true).
+
+  Definition srip_fn (lab : nat -> nat -> option str) (q i j : nat) : option str :=
+    if Nat.eqb i q || Nat.eqb j q then None else srip_lab lab q i j.
+
+  Lemma lab_rel_rip sl rl q : lab_rel sl rl -> lab_rel (srip_fn sl q) (rip_fn rl q).
+  Proof.
+    intros [xl H]. exists (xrip_fn xl q). intros i j. unfold xrip_fn, srip_fn, rip_fn.
+    destruct (Nat.eqb i q || Nat.eqb j q); [repeat split; discriminate|].
+    split; [|split].
+    - apply show_xrip_lab. intros p r. apply H.
+    - apply xrip_lab_den; [intros p r; apply H|intros p r y; apply H].
+    - intros y Hy. eapply (xrip_lab_wf ok ok_sym); [|exact Hy]. intros p r z. apply H.
+  Qed.
+
+  Lemma lab_rel_ext sl sl' rl rl' :
+    (forall p q, sl p q = sl' p q) -> (forall p q, rl p q = rl' p q) -> lab_rel sl rl -> lab_rel sl' rl'.
+  Proof. intros Hs Hr [xl H]. exists xl. intros p q. rewrite <- Hs, <- Hr. apply H. Qed.
+End Den.
+
+(* ================================================================== *)
+(* D. tables                                                           *)
+(* ================================================================== *)
+Lemma sassoc2_app p q l1 l2 :
+  sassoc2 p q (l1 ++ l2) = match sassoc2 p q l1 with Some r => Some r | None => sassoc2 p q l2 end.
+Proof.
+  induction l1 as [|[[p' q'] r] t IH]; simpl; [reflexivity|].
+  destruct (Nat.eqb p p' && Nat.eqb q q'); [reflexivity|exact IH].
+Qed.
+
+Lemma sassoc2_row f p q p' l :
+  sassoc2 p q (flat_map (fun q' => match f p' q' with Some r => [((p', q'), r)] | None => [] end) l)
+  = if Nat.eqb p p' && memb q l then f p q else None.
+Proof.
+  induction l as [|x l IH]; simpl; [rewrite andb_false_r; reflexivity|].
+  rewrite sassoc2_app, IH. unfold memb in *. simpl.
+  destruct (Nat.eqb p p') eqn:Ep; simpl.
+  - apply Nat.eqb_eq in Ep. subst p'. destruct (Nat.eqb q x) eqn:Eq; simpl.
+    + apply Nat.eqb_eq in Eq. subst x. destruct (f p q) as [r|] eqn:Ef; simpl.
+      * rewrite !Nat.eqb_refl. reflexivity.
+      * destruct (existsb (Nat.eqb q) l); reflexivity.
+    + destruct (f p x) as [r|]; simpl; [|reflexivity].
+      rewrite Nat.eqb_refl, Eq. reflexivity.
+  - destruct (f p' x) as [r|]; simpl; [|reflexivity]. rewrite Ep. reflexivity.
+Qed.
+
+Lemma sassoc2_tabulate_gen f p q cols rows :
+  sassoc2 p q (flat_map (fun p' => flat_map (fun q' => match f p' q' with Some r => [((p', q'), r)] | None => [] end) cols) rows)
+  = if memb p rows && memb q cols then f p q else None.
+Proof.
+  induction rows as [|x rows IH]; simpl; [reflexivity|].
+  rewrite sassoc2_app, sassoc2_row, IH. unfold memb. simpl.
+  destruct (Nat.eqb p x); simpl; [|reflexivity].
+  destruct (existsb (Nat.eqb q) cols); simpl; [|rewrite andb_false_r; reflexivity].
+  destruct (f p q); [reflexivity|]. destruct (existsb (Nat.eqb p) rows); reflexivity.
+Qed.
+
+Lemma slabel_tabulate sts i f F p q :
+  slabel (mksg sts i f (stabulate sts F)) p q = if memb p sts && memb q sts then F p q else None.
+Proof.
+  unfold slabel, stabulate. simpl. rewrite sassoc2_tabulate_gen.
+  destruct (memb p sts && memb q sts); reflexivity.
+Qed.
+
+Lemma slabel_states g p q s : slabel g p q = Some s -> In p (s_states g) /\ In q (s_states g).
+Proof.
+  unfold slabel. destruct (memb p (s_states g)) eqn:E1; [|discriminate].
+  destruct (memb q (s_states g)) eqn:E2; [|discriminate]. intros _.
+  split; apply memb_In; assumption.
+Qed.
+
+Lemma slabel_outside_l g p q : ~ In p (s_states g) -> slabel g p q = None.
+Proof. intro H. destruct (slabel g p q) eqn:E; [|reflexivity]. apply slabel_states in E. tauto. Qed.
+
+Lemma slabel_outside_r g p q : ~ In q (s_states g) -> slabel g p q = None.
+Proof. intro H. destruct (slabel g p q) eqn:E; [|reflexivity]. apply slabel_states in E. tauto. Qed.
+
+Lemma slabel_srip g q i j : slabel (srip g q) i j = srip_fn (slabel g) q i j.
+Proof.
+  unfold srip. rewrite slabel_tabulate, !memb_remove. unfold srip_fn.
+  destruct (Nat.eqb i q) eqn:Ei; simpl; [rewrite andb_false_r; reflexivity|].
+  destruct (Nat.eqb j q) eqn:Ej; simpl; [rewrite !andb_false_r; reflexivity|].
+  rewrite !andb_true_r.
+  destruct (memb i (s_states g)) eqn:Mi; simpl.
+  - destruct (memb j (s_states g)) eqn:Mj; [reflexivity|].
+    apply memb_false in Mj. unfold srip_lab.
+    rewrite (slabel_outside_r g q j Mj), (slabel_outside_r g i j Mj).
+    destruct (slabel g i q); reflexivity.
+  - apply memb_false in Mi. unfold srip_lab.
+    rewrite (slabel_outside_l g i q Mi), (slabel_outside_l g i j Mi). reflexivity.
+Qed.
+
+(* ================================================================== *)
+(* E. the two GNFAs side by side                                       *)
+(* ================================================================== *)
+Section Rel.
+  Variable ok : nat -> bool.
+  Hypothesis ok_sym : forall a, ok a = true -> sym_ok a = true.
+
+  Definition grel (s : sg) (g : gnfa) : Prop :=
+    s_states s = g_states g /\ s_init s = g_init g /\ s_final s = g_final g /\
+    lab_rel ok (slabel s) (label g).
+
+  Lemma grel_rip s g q : grel s g -> grel (srip s q) (rip g q).
+  Proof.
+    intros (H1 & H2 & H3 & H4). unfold grel. simpl. rewrite H1. repeat split; try assumption.
+    eapply lab_rel_ext; [| |apply (lab_rel_rip ok ok_sym _ _ q H4)].
+    - intros i j. symmetry. apply slabel_srip.
+    - intros i j. symmetry. apply label_rip.
+  Qed.
+
+  Lemma grel_elim order : forall s g, grel s g -> grel (selim_g s order) (elim_g g order).
+  Proof.
+    induction order as [|q r IH]; intros s g H; simpl; [exact H|]. apply IH. apply grel_rip. exact H.
+  Qed.
+
+  (* the value of to_regex along an order: the printing of a well-formed tree denoting what the
+     AST-level elimination denotes; None exactly when the AST level has no edge left either *)
+  Lemma grel_result s g order : grel s g ->
+    match selim s order with
+    | Some st => exists x, st = show x /\ wf_lab ok x = true /\ xden x =L rden (elim g order)
+    | None => forall w, ~ rden (elim g order) w
+    end.
+  Proof.
+    intro H. apply (grel_elim order) in H. destruct H as (H1 & H2 & H3 & [xl H4]).
+    unfold selim, elim. rewrite H2, H3.
+    destruct (H4 (g_init (elim_g g order)) (g_final (elim_g g order))) as (Hs & Hr & Hw).
+    rewrite <- Hs.
+    destruct (xl (g_init (elim_g g order)) (g_final (elim_g g order))) as [x|];
+      destruct (label (elim_g g order) (g_init (elim_g g order)) (g_final (elim_g g order))) as [r|];
+      simpl in *; try contradiction.
+    - exists x. split; [reflexivity|]. split; [apply Hw; reflexivity|exact Hr].
+    - intros w [].
+  Qed.
+End Rel.
